@@ -157,8 +157,8 @@ def locked_nodes(rel):
 
 
 def locked_identity(run, ent, op, parents):
-    if not parents:
-        return
+    if not parents or op["k"] == "twin":
+        return          # (a twin is a deliberate from-scratch copy: new nodes by construction)
     res = locked_nodes(ent.rel)
     nonleaf = False
     inputs = {}
